@@ -236,7 +236,8 @@ Check C11_append_container_abs :
 Print Assumptions C11_append_container_abs.
 
 (* one OAppend step of a history of Model/Update.v (C11_append_cmd_spec, C11_history_invariant) carried out on the
-   file: carries_nodes = the jobs are what create_entry builds for the nodes collect_items keeps *)
+   file: carries_nodes = the jobs are what create_entry builds for the nodes collect_items keeps — since 4cfc8ff5 one
+   per entry name, the first walked path of that name (Update.update_targets, C11_items_spec) *)
 Theorem C11_append_container_step :
   forall (E D : encryption -> bytes -> bytes -> bytes) (compress : compression -> N -> list bytes -> list bytes)
          (decompress : compression -> bytes -> res bytes) (verify : bytes -> bytes -> res bytes),
@@ -343,7 +344,8 @@ Check C11_append_multipart :
 Print Assumptions C11_append_multipart.
 
 (* the invariant of C11_history_invariant on files: appending names not yet archived (hist_ok) to a file whose decoded
-   entries have distinct names gives a file whose decoded entries have distinct names *)
+   entries have distinct names gives a file whose decoded entries have distinct names.  Since 4cfc8ff5 hist_ok asks
+   nothing about the walked paths among themselves (C11_hist_ok_append): overlapping file arguments are covered *)
 Theorem C11_append_container_history :
   forall (E D : encryption -> bytes -> bytes -> bytes) (compress : compression -> N -> list bytes -> list bytes)
          (decompress : compression -> bytes -> res bytes) (verify : bytes -> bytes -> res bytes),
